@@ -135,7 +135,7 @@ Record jspec := mkJspec {
   js_always : bool; js_cores : Z; js_ic : Z }.
 
 Inductive op :=
-| CreateBatch (user bp token : Z)
+| CreateBatch (user bp token : Z) (member : bool)   (* member: user belongs to the open billing project bp *)
 | CreateUpdate (b user token n_jobs n_groups : Z)
 | CreateGroups (b u user : Z) (gs : list gspec)
 | CreateJobs (b u user : Z) (js : list jspec)
@@ -150,7 +150,7 @@ Inductive op :=
 | UnscheduleJob (b j att inst time reason : Z)
 | MarkCreating (b j att inst time : Z)
 | MarkStarted (b j att inst time : Z)
-| MarkComplete (b j att inst : Z) (new_state : jstate) (start endt : option Z) (reason : option Z)
+| MarkComplete (b j att inst : Z) (new_state : jstate) (start endt : option Z) (reason : Z)
 | AddAttemptResources (b j att : Z) (rs : list (Z * Z))
 | BillingUpdate (time : Z) (atts : list (Z * Z * Z))
 | CleanupStaging
@@ -317,24 +317,24 @@ Definition update_attempt (s : state) (o req : attempt) : state :=
 Definition replace_inst (n : inst) (l : list inst) : list inst :=
   map (fun x => if i_name x =? i_name n then n else x) l.
 
-(* returns the new state and delta_cores_mcpu *)
-Definition add_attempt (s : state) (b j a i cores : Z) : state * Z :=
+(* returns the new state and delta_cores_mcpu; None = foreign-key error 1452 (unknown instance; -1 is NULL) *)
+Definition add_attempt (s : state) (b j a i cores : Z) : option (state * Z) :=
   match find_attempt s b j a with
-  | Some _ => (s, 0)
+  | Some _ => Some (s, 0)
   | None =>
       let s1 := s <| attempts ::= fun l => l ++ [mkAttempt b j a i None None None None] |> in
-      let s2 := match find_inst s1 i with
-                | Some x => if ilive (i_state x) then s1 <| insts ::= replace_inst (x <| i_free := i_free x - cores |>) |> else s1
-                | None => s1
-                end in
-      (s2, - cores)
+      match find_inst s1 i with
+      | Some x => Some (if ilive (i_state x) then s1 <| insts ::= replace_inst (x <| i_free := i_free x - cores |>) |> else s1, - cores)
+      | None => if i =? -1 then Some (s1, - cores) else None
+      end
   end.
 
-(* is_job_cancelled (119): None models MySQL error 1242 (scalar subquery returns more than one row) *)
+(* is_job_cancelled (119 + 121): the lateral subquery is LIMIT 1, so the scalar subquery yields one row.
+   (Before migration 121 two cancelled ancestors made it raise MySQL error 1242; [None] is kept in the
+   result type for that error and is never produced now.) *)
 Definition is_job_cancelled (s : state) (x : job) : option bool :=
   let k := n_cancelled_anc s (j_batch x) (j_group x) in
-  if 1 <? k then None
-  else Some (negb (j_always x) && (j_cancelled x || (0 <? k))).
+  Some (negb (j_always x) && (j_cancelled x || (0 <? k))).
 
 (* ------------------------------------------------------------------ front end *)
 
@@ -344,7 +344,8 @@ Definition create_group_rows (s : state) (b g : Z) (upd : option Z) (parent : Z)
   s <| groups ::= fun l => l ++ [mkGroup b g false 0 0 0 0 0 upd] |>
     <| ancestors ::= fun l => l ++ copied ++ [(b, g, g, 0)] |>.
 
-Definition do_create_batch (s : state) (user bp token : Z) : state * res :=
+Definition do_create_batch (s : state) (user bp token : Z) (member : bool) : state * res :=
+  if negb member then (s, (3, [])) else
   match find (fun x => (b_token x =? token) && (b_user x =? user)) (batches s) with
   | Some x => (s, ok [b_id x])
   | None =>
@@ -437,6 +438,20 @@ Definition stage_job (s : state) (x : job) : state :=
   s <| staging := fold_left (fun m a => cadd [j_batch x; j_update x; a; j_ic x] dst m) ancs (staging s) |>
     <| cancellable := fold_left (fun m a => cadd [j_batch x; j_update x; a; j_ic x] dcb m) ancs (cancellable s) |>.
 
+(* verdict of the multi-row INSERT INTO jobs: 0 = all rows insertable, 1 = SIGNAL (cancelled group),
+   2 = duplicate key, 3 = foreign key; [seen] = ids of the rows already processed *)
+Fixpoint insert_verdict (s : state) (b : Z) (js : list job) (seen : list Z) : Z :=
+  match js with
+  | [] => 0
+  | x :: r =>
+      if group_cancelled s b (j_group x) then 1
+      else if existsb (Z.eqb (j_id x)) seen || match find_job s b (j_id x) with Some _ => true | None => false end then 2
+      else match find_group s b (j_group x) with
+           | None => 3
+           | Some _ => insert_verdict s b r (j_id x :: seen)
+           end
+  end.
+
 Definition do_create_jobs (s : state) (b u user : Z) (jss : list jspec) : state * res :=
   match find_update s b u, find_batch s b with
   | Some up, Some bt =>
@@ -444,22 +459,22 @@ Definition do_create_jobs (s : state) (b u user : Z) (jss : list jspec) : state 
       else if u_committed up then (s, bad_request)
       else
         let js := map (job_of_spec b u (u_start_job up) (u_start_group up)) jss in
-        let ids := map (fun jp => j_id (fst jp)) js in
         match jss with [] => (s, assertion) | _ =>
-        (* INSERT INTO jobs: one multi-row statement; a duplicate key means "bunch already inserted" *)
-        if existsb (fun id => match find_job s b id with Some _ => true | None => false end) ids || has_dup ids
-        then (s, ok [])
-        else if existsb (fun jp => match find_group s b (j_group (fst jp)) with Some _ => false | None => true end) js
-        then (s, other_err)                    (* foreign key jobs -> job_groups *)
-        else if existsb (fun jp => group_cancelled s b (j_group (fst jp))) js
-        then (s, bad_request)                  (* jobs_before_insert SIGNAL *)
-        else if existsb (fun jp => has_dup (snd jp)) js
+        (* INSERT INTO jobs: one multi-row statement, rows processed in order; for each row the BEFORE INSERT
+           trigger (cancelled group -> SIGNAL) runs first, then the primary key (a duplicate means "bunch already
+           inserted": the handler returns normally and nothing is inserted), then the foreign key to job_groups *)
+        match insert_verdict s b (map fst js) [] with
+        | 1 => (s, bad_request)
+        | 2 => (s, ok [])
+        | 3 => (s, sql_error 1452)
+        | _ =>
+        if existsb (fun jp => has_dup (snd jp)) js
         then (s, bad_request)                  (* duplicate (job, parent) key *)
         else
           let s1 := s <| jobs ::= fun l => l ++ map fst js |>
                       <| parents ::= fun l => l ++ flat_map (fun jp => map (fun p => (b, j_id (fst jp), p)) (snd jp)) js |> in
           (fold_left stage_job (map fst js) s1, ok [])
-        end
+        end end
   | _, _ => (s, not_found)
   end.
 
@@ -517,11 +532,7 @@ Definition do_commit (s : state) (b u user : Z) : state * res :=
   | Some bt, Some _ =>
       if negb (b_user bt =? user) || b_deleted bt then (s, not_found)
       else if marked s b 0 then (s, bad_request)
-      else let '(s', r) := do_commit_proc s b u in
-           match r with
-           | (0, [0]) => (s', ok [])
-           | _ => (s, other_err)      (* rc 1: CallError propagates (the handler only recognises rc 2) *)
-           end
+      else do_commit_proc s b u      (* rc 0: committed (or already committed); rc 1: wrong number of jobs, nothing changed *)
   | _, _ => (s, not_found)
   end.
 
@@ -554,9 +565,9 @@ Definition do_cancel_group (s : state) (b g : Z) : state * res :=
       let committed := match g_update gr with
                        | Some u => match find_update s b u with Some x => u_committed x | None => false end
                        | None => false end in
-      if b_deleted bt || negb (committed || (g =? 0)) then (s, not_found)
+      if b_deleted bt || negb (committed || (g =? 0)) then (s, (3, []))
       else (cancel_proc s b g, ok [])
-  | _, _ => (s, not_found)
+  | _, _ => (s, (3, []))
   end.
 
 Definition do_delete_batch (s : state) (b : Z) : state * res :=
@@ -627,19 +638,22 @@ Definition inst_state (s : state) (i : Z) : option istate := option_map i_state 
 Definition is_state (o : option istate) (x : istate) : bool :=
   match o, x with Some IPending, IPending | Some IActive, IActive | Some IInactive, IInactive | Some IDeleted, IDeleted => true | _, _ => false end.
 
+Definition inst_live (o : option istate) : bool := match o with Some x => ilive x | None => false end.
+
 Definition do_schedule (s : state) (b j a i : Z) : state * res :=
   match find_job s b j with
-  | None => (s, other_err)
+  | None => (s, sql_error 1452)            (* job missing: INSERT INTO attempts violates the foreign key to jobs *)
   | Some x =>
       match is_job_cancelled s x with
       | None => (s, sql_error 1242)
       | Some cancel =>
           let pool := match find_inst s i with Some y => i_pool y | None => false end in
-          let '(s1, d0) := add_attempt s b j a i (j_cores x) in
+          match add_attempt s b j a i (j_cores x) with None => (s, sql_error 1452) | Some (s1, d0) =>
           let delta := if pool then (if d0 =? 0 then j_cores x else 0) else d0 in
           if (jstate_eqb (j_state x) Ready || jstate_eqb (j_state x) Creating) && negb cancel && is_state (inst_state s1 i) IActive
           then (update_job s1 x (x <| j_state := Running |> <| j_attempt := Some a |>), ok [0; delta])
           else (s1, ok [1; delta])
+          end
       end
   end.
 
@@ -651,30 +665,33 @@ Definition set_times (s : state) (b j a t : Z) : state :=
 
 Definition do_mark_creating_or_started (creating : bool) (s : state) (b j a i t : Z) : state * res :=
   match find_job s b j with
-  | None => (s, other_err)
+  | None => (s, sql_error 1452)
   | Some x =>
       match is_job_cancelled s x with
       | None => (s, sql_error 1242)
       | Some cancel =>
-          let '(s1, d0) := add_attempt s b j a i (j_cores x) in
+          match add_attempt s b j a i (j_cores x) with None => (s, sql_error 1452) | Some (s1, d0) =>
           let s2 := set_times s1 b j a t in
           let want := if creating then IPending else IActive in
           if jstate_eqb (j_state x) Ready && negb cancel && is_state (inst_state s2 i) want
           then (update_job s2 x (x <| j_state := (if creating then Creating else Running) |> <| j_attempt := Some a |>), ok [0; d0])
           else (s2, ok [0; d0])
+          end
       end
   end.
 
 Definition do_unschedule (s : state) (b j a i t reason : Z) : state * res :=
   match find_job s b j with
-  | None => (s, other_err)
+  | None => (* nothing found; free_cores + NULL violates NOT NULL when the cores would be given back *)
+      if inst_live (inst_state s i) && match find_attempt s b j a with Some c => match a_end c with None => true | Some _ => false end | None => true end
+      then (s, sql_error 1048) else (s, ok [1; 0])
   | Some x =>
       let cur := find_attempt s b j a in
       let cur_end := match cur with Some c => a_end c | None => None end in
       let s1 := match cur with
                 | Some c => update_attempt s c (c <| a_rollup := Some t |> <| a_end := Some t |> <| a_reason := Some reason |>)
                 | None => s end in
-      let give := is_state (inst_state s1 i) IActive && match cur_end with None => true | Some _ => false end in
+      let give := inst_live (inst_state s1 i) && match cur_end with None => true | Some _ => false end in
       let s2 := if give then match find_inst s1 i with
                              | Some y => s1 <| insts ::= replace_inst (y <| i_free := i_free y + j_cores x |>) |>
                              | None => s1 end else s1 in
@@ -694,34 +711,36 @@ Definition finish_groups (s : state) (b g : Z) : state :=
 Definition release_children (s : state) (b j : Z) (succ : bool) : state :=
   let kids := map (fun r => let '(_, c, _) := r in c)
                   (filter (fun r => let '(b', _, p) := r in (b' =? b) && (p =? j)) (parents s)) in
+  let committed u := match find_update s b u with Some y => u_committed y | None => false end in
   fold_left (fun st c =>
      match find_job st b c with
-     | Some x => update_job st x (x <| j_state := if j_npp x =? 1 then Ready else Pending |>
+     | Some x => if negb (committed (j_update x)) then st else update_job st x (x <| j_state := if j_npp x =? 1 then Ready else Pending |>
                                    <| j_npp := j_npp x - 1 |>
                                    <| j_cancelled := if succ then j_cancelled x else true |>)
      | None => st
      end) kids s.
 
-Definition do_mark_complete (s : state) (b j a i : Z) (ns : jstate) (start endt reason : option Z) : state * res :=
+Definition do_mark_complete (s : state) (b j a i : Z) (ns : jstate) (start endt : option Z) (reason : Z) : state * res :=
   match find_job s b j with
-  | None => (s, other_err)
+  | None => if a =? -1 then (s, ok [1; 0]) else (s, sql_error 1452)
   | Some x =>
       let total := match find_batch s b with Some bt => b_njobs bt | None => 0 end in
-      let '(s1, d0) := add_attempt s b j a i (j_cores x) in
-      let cur := find_attempt s1 b j a in
+      (* attempt id -1 stands for NULL (the canceller completes Ready jobs without an attempt) *)
+      match (if a =? -1 then Some (s, 0) else add_attempt s b j a i (j_cores x)) with None => (s, sql_error 1452) | Some (s1, d0) =>
+      let cur := if a =? -1 then None else find_attempt s1 b j a in
       let cur_end := match cur with Some c => a_end c | None => None end in
       let s2 := match cur with
-                | Some c => update_attempt s1 c (c <| a_start := start |> <| a_rollup := endt |> <| a_end := endt |> <| a_reason := reason |>)
+                | Some c => update_attempt s1 c (c <| a_start := start |> <| a_rollup := endt |> <| a_end := endt |> <| a_reason := Some reason |>)
                 | None => s1 end in
-      let give := is_state (inst_state s2 i) IActive && match cur_end with None => true | Some _ => false end in
+      let give := inst_live (inst_state s2 i) && match cur_end with None => true | Some _ => false end in
       let s3 := if give then match find_inst s2 i with
                              | Some y => s2 <| insts ::= replace_inst (y <| i_free := i_free y + j_cores x |>) |>
                              | None => s2 end else s2 in
       let delta := if give then d0 + j_cores x else d0 in
-      let stale := match j_attempt x with Some e => negb (e =? a) | None => false end in
+      let stale := match j_attempt x with Some e => negb (a =? -1) && negb (e =? a) | None => false end in
       if stale then (s3, ok [2; delta])
       else if jstate_eqb (j_state x) Ready || jstate_eqb (j_state x) Creating || jstate_eqb (j_state x) Running then
-        let s4 := update_job s3 x (x <| j_state := ns |> <| j_attempt := Some a |>) in
+        let s4 := update_job s3 x (x <| j_state := ns |> <| j_attempt := (if a =? -1 then None else Some a) |>) in
         let ancs := anc_ids s4 b (j_group x) in
         let isc := jstate_eqb ns Cancelled in
         let isf := jstate_eqb ns Error || jstate_eqb ns Failed in
@@ -736,6 +755,7 @@ Definition do_mark_complete (s : state) (b j a i : Z) (ns : jstate) (start endt 
         (release_children s7 b j (jstate_eqb ns Success), ok [0; delta; jcode (j_state x)])
       else if terminal (j_state x) then (s3, ok [0; delta; jcode (j_state x)])
       else (s3, ok [1; delta])
+      end
   end.
 
 (* INSERT INTO attempt_resources ... ON DUPLICATE KEY UPDATE quantity = quantity; AFTER INSERT trigger bills
@@ -748,10 +768,21 @@ Definition add_one_resource (b j a : Z) (s : state) (rq : Z * Z) : state :=
     let msec := match find_attempt s1 b j a with Some at_ => billed at_ | None => 0 end in
     if msec =? 0 then s1 else bill s1 b j msec (r, q).
 
+(* add_attempt_resources (driver/job.py) first sums the quantities per resource name *)
+Fixpoint merge_resources (rs : list (Z * Z)) : list (Z * Z) :=
+  match rs with
+  | [] => []
+  | (r, q) :: rest =>
+      let m := merge_resources rest in
+      if existsb (fun x => fst x =? r) m
+      then map (fun x => if fst x =? r then (r, snd x + q) else x) m
+      else (r, q) :: m
+  end.
+
 Definition do_add_resources (s : state) (b j a : Z) (rs : list (Z * Z)) : state * res :=
   match find_attempt s b j a with
   | None => (s, sql_error 1452)       (* foreign key attempt_resources -> attempts *)
-  | Some _ => (fold_left (add_one_resource b j a) rs s, ok [])
+  | Some _ => (fold_left (add_one_resource b j a) (merge_resources rs) s, ok [])
   end.
 
 Definition do_billing_update (s : state) (t : Z) (atts : list (Z * Z * Z)) : state * res :=
@@ -775,7 +806,7 @@ Definition do_cleanup_cancellable (s : state) : state * res :=
 
 Definition step (s : state) (o : op) : state * res :=
   match o with
-  | CreateBatch user bp token => do_create_batch s user bp token
+  | CreateBatch user bp token m => do_create_batch s user bp token m
   | CreateUpdate b user token nj ng => do_create_update s b user token nj ng
   | CreateGroups b u user gs => do_create_groups s b u user gs
   | CreateJobs b u user js => do_create_jobs s b u user js
